@@ -23,10 +23,17 @@ class Seams:
         self._saved = {n: getattr(_crypto, "_" + "_" + n) for n in ("AES128", "PublicEccKey", "PrivateEccKey", "random_bytes")}
         RealPriv, real_rng = _plug.PrivateEccKeyProxy, _plug.random_bytes
 
+        forced = self.forced = []          # chosen ephemeral scalars (input selection for C09), consumed first
+
         class LogPriv(RealPriv):
             @classmethod
             def generate(cls):
-                k = super().generate()
+                if forced:
+                    from register_crypto_plugin.ecdsa import SigningKey
+                    from .oracle_openssl import sec1_from_scalar
+                    k = cls(SigningKey.from_der(sec1_from_scalar(forced.pop(0))))
+                else:
+                    k = super().generate()
                 log.append({"ev": "gen", "pub": bytes(k.public_key.to_raw_bin_fmt())})
                 return k
 
